@@ -284,6 +284,7 @@ PROPS["C17"] = {
         {"test": "^TestGCCPacers$", "checks": 40, "shards": 6, "timeout": 400},
         {"test": "^TestPacingDeepBacklog$", "checks": 6, "shards": 2, "timeout": 400},
         {"test": "^TestPacingSecondIncarnation$", "checks": 6, "shards": 2, "timeout": 400},
+        {"test": "^TestPacingRateSpikes$", "checks": 5, "shards": 3, "timeout": 400},
     ],
     "thorough": [
         {"test": "^TestKnownOversizeHeadOfLine$", "timeout": 120},
@@ -291,6 +292,7 @@ PROPS["C17"] = {
         {"test": "^TestGCCPacers$", "checks": 250, "shards": 6, "timeout": 1500},
         {"test": "^TestPacingDeepBacklog$", "checks": 60, "shards": 4, "timeout": 1500},
         {"test": "^TestPacingSecondIncarnation$", "checks": 60, "shards": 4, "timeout": 1500},
+        {"test": "^TestPacingRateSpikes$", "checks": 60, "shards": 4, "timeout": 1500},
     ],
 }
 
